@@ -75,6 +75,7 @@ func c03Sockets(route int, k int, what string) {
 
 func VerifC03_SocketsUDP()          { c03Sockets(0, 1, "udp") }
 func VerifC03_SocketsUDP2()         { c03Sockets(0, 2, "udp") } // the first datagram decides; nothing is skipped on a directed route
+func VerifC03_T_SocketsUDP3()       { c03Sockets(0, 3, "udp") }
 func VerifC03_SocketsTCP()          { c03Sockets(1, 1, "tcp") }
 func VerifC03_SocketsBroadcast1()   { c03Sockets(2, 1, "broadcast") }
 func VerifC03_SocketsBroadcast2()   { c03Sockets(2, 2, "broadcast") }
